@@ -182,6 +182,12 @@ def run_corpus_patch(args) -> dict:
         found, err = findings_for(d, pid)
         new = {k: t for k, t in found.items() if k not in baseline}
         res = {"id": sid, "kind": kind, "new": sorted(new.values())[:3], "error": err}
+        mp = os.path.join(os.path.dirname(patch), "meta.json")
+        if kind == "seeded" and os.path.exists(mp):
+            import json as _json
+
+            if _json.load(open(mp)).get("accept_props"):
+                return {"id": sid, "kind": kind, "status": "skipped", "why": "filed under this property by its author, judged to break another one (meta.json reviewer_note)"}
         if kind == "seeded":
             res["status"] = "fired" if new else "FAILED"
             if not new:
